@@ -204,6 +204,21 @@ def build(tier):
         for rel in rels:
             src = u.source(rel)
             stem = re.sub(r"\W+", "_", rel[len("src/"):-len(".rs")])
+            # eval.rs also holds the code that loads definitions; `garden check`, `garden format`'s callers and the
+            # language server run it on any text that parses (C01, C28): the functions reachable from
+            # load_toplevel_items_ by calls within the file count for those properties too
+            load_time = set()
+            if rel == "src/eval.rs":
+                fns = {it.name: it for it in src.all_fns()}
+                todo = [n for n in ("load_toplevel_items_", "load_toplevel_items", "load_toplevel_items_with_stubs") if n in fns]
+                while todo:
+                    n = todo.pop()
+                    if n in load_time:
+                        continue
+                    load_time.add(n)
+                    for callee in set(re.findall(r"\b([a-z_][a-z0-9_]*)\s*\(", fns[n].text)):
+                        if callee in fns and callee not in load_time:
+                            todo.append(callee)
             ai = [rx for (g, rx, _why) in ALLOWED_INDEX if re.fullmatch(g, rel)]
             for it in src.all_fns():
                 if (rel, it.name) in EXCLUDE:
@@ -212,13 +227,14 @@ def build(tier):
                 lines, sl = guardslice.slice_function(src, it, gname, ALLOWED_PANIC.get((rel, it.name), (0, ""))[0], ai, arity_fn=ARITY_FN)
                 if lines is None:
                     continue
-                u.fn_props[gname] = props
-                u.safety_props[gname] = props
+                fprops = (props | {"C01", "C28"}) if it.name in load_time else props
+                u.fn_props[gname] = fprops
+                u.safety_props[gname] = fprops
                 u.skeletons[gname] = skeleton_hash(it.text)
                 u.items.append({"name": "%s (guard slice)" % it.name, "generated_as": gname, "kind": "slice", "where": "%s:%d-%d" % (rel, it.line0, it.line1),
                                 "sha256_16": it.sha(), "skeleton": u.skeletons[gname]})
                 for (text, ln) in lines:
-                    u.emit(text, Tag("repo", fn=gname, repo_file=rel, repo_line=ln, props=props))
+                    u.emit(text, Tag("repo", fn=gname, repo_file=rel, repo_line=ln, props=fprops))
                 n_fns += 1
                 n_idx += sl.n_index
                 n_panic += sl.n_panic
